@@ -8,7 +8,7 @@
    `poolacct_src_<pool>` (does the pool listen to / count a one-way stream) and `poolacct_src_destroy_oneway` (a one-way client
    stream is destroyed once written) are READ FROM THE SOURCE on every run. *)
 From Coq Require Import List ZArith Bool.
-From MV Require Import Model.Pool Model.PoolAcct Gen.PoolSrc Proofs.Pool Proofs.PoolAcct.
+From MV Require Import Lib.Interleave Model.Pool Model.PoolAcct Model.PoolH2 Model.PoolH2Race Gen.PoolSrc Proofs.Pool Proofs.PoolAcct Proofs.PoolH2 Proofs.PoolH2Race.
 Import ListNotations.
 Open Scope Z_scope.
 
@@ -62,3 +62,84 @@ Proof.
   destruct H as [_ [H _]]. vm_compute in H. apply H. reflexivity.
 Qed.
 Print Assumptions c10_pool_listen_without_count_refuted.
+
+(* ==== HTTP/2 pool (pkg/stream/http2/connpool.go): upstream_connection_active (host and cluster) ====================
+   Model/PoolH2.v: `h2run sw ops h2init` is the pool after the history `ops` of {HNew d (pool.NewStream, cold or warm; d = the
+   outcome of a dial if one is made), HGoAway c (GOAWAY frame on connection c), HClose c (any close event of connection c),
+   HPoolClose (pool.Close())}; streams ending or being reset do not touch the connection accounting.  `poolh2_src_switches`
+   (does deleteActiveClient test WHICH client it deletes; does the close handler skip GOAWAY'd clients; does NewStream
+   decrement when it drops a GOAWAY'd client) and `poolh2_src_dial_locked` are READ FROM THE SOURCE on every run.
+   Model/PoolH2Race.v: two concurrent NewStream calls on a cold pool and the close events of the connections they dial,
+   as micro-steps under every schedule. *)
+Definition h2_conn_statement (sw : h2sw) : Prop := forall ops,
+  let q := h2run sw ops h2init in
+  (* the gauge is the number of open connections the pool created: never negative *)
+  h_active q = nopen (h_cl q) (h_n q) /\ 0 <= h_active q /\
+  (* back at zero when none is open *)
+  ((forall c, (c < h_n q)%nat -> h_closed (h_cl q c) = true) -> h_active q = 0) /\
+  (* no open connection is orphaned: one that received no GOAWAY is the pool's shared client *)
+  (forall c, (c < h_n q)%nat -> h_closed (h_cl q c) = false -> h_goaway (h_cl q c) = false -> h_cur q = Some c) /\
+  (* the shared client is an open connection of the pool *)
+  (forall c, h_cur q = Some c -> (c < h_n q)%nat /\ h_closed (h_cl q c) = false).
+
+Theorem c10_pool_h2_connection_gauge : h2_conn_statement poolh2_src_switches.
+Proof. exact (fun ops => h2_gauge h2sw_fixed ops eq_refl). Qed.
+Print Assumptions c10_pool_h2_connection_gauge.
+
+(* a stream is only placed on an open connection that received no GOAWAY, and that connection is the shared client *)
+Theorem c10_pool_h2_lease_sound : forall ops d q c,
+  h2step poolh2_src_switches (h2run poolh2_src_switches ops h2init) (HNew d) = (q, H2L c) ->
+  (c < h_n q)%nat /\ h_closed (h_cl q c) = false /\ h_goaway (h_cl q c) = false /\ h_cur q = Some c.
+Proof. exact (fun ops d q c => h2_lease_sound h2sw_fixed ops d q c eq_refl). Qed.
+Print Assumptions c10_pool_h2_lease_sound.
+
+(* two concurrent NewStream calls on a cold pool, the connect path and the close handler as they are in the source: after
+   EVERY schedule the gauge is not negative and, once both calls returned and every close event was handled, it is the
+   number of open connections, every open connection is the shared client and the shared client is open *)
+Theorem c10_pool_h2_concurrent_pair : h2race_statement poolh2_src_dial_locked (h2_identity poolh2_src_switches).
+Proof. exact (h2race_locked_safe true). Qed.
+Print Assumptions c10_pool_h2_concurrent_pair.
+
+(* ... and then every later history of atomic operations keeps the books *)
+Theorem c10_pool_h2_concurrent_then_history : forall sched ops,
+  let c := rrun (h2_identity poolh2_src_switches) sched (race_cfg poolh2_src_dial_locked) in
+  quiescent c = true ->
+  let q := h2run poolh2_src_switches ops (race_pool (snd c)) in
+  h_active q = nopen (h_cl q) (h_n q) /\ 0 <= h_active q /\
+  ((forall i, (i < h_n q)%nat -> h_closed (h_cl q i) = true) -> h_active q = 0) /\
+  (forall i, (i < h_n q)%nat -> h_closed (h_cl q i) = false -> h_goaway (h_cl q i) = false -> h_cur q = Some i) /\
+  (forall i, h_cur q = Some i -> (i < h_n q)%nat /\ h_closed (h_cl q i) = false).
+Proof. exact (fun sched ops => h2race_then_history h2sw_fixed true sched ops eq_refl). Qed.
+Print Assumptions c10_pool_h2_concurrent_then_history.
+
+(* non-vacuity: cold NewStream, warm NewStream, GOAWAY, NewStream (second connection; the first stays counted until it
+   closes), close of the first, failed dial after GOAWAY on the second, close of the second *)
+Example c10_pool_h2_example :
+  map (fun ops => let q := h2run poolh2_src_switches ops h2init in (h_active q, h_cur q))
+      [ [HNew DialOk; HNew DialOk];
+        [HNew DialOk; HGoAway 0%nat; HNew DialOk];
+        [HNew DialOk; HGoAway 0%nat; HNew DialOk; HClose 0%nat];
+        [HNew DialOk; HGoAway 0%nat; HNew DialOk; HClose 0%nat; HGoAway 1%nat; HNew DialRefused];
+        [HNew DialOk; HGoAway 0%nat; HNew DialOk; HClose 0%nat; HGoAway 1%nat; HNew DialRefused; HClose 1%nat] ] =
+  [(1, Some 0%nat); (2, Some 1%nat); (1, Some 1%nat); (1, None); (0, None)].
+Proof. vm_compute. reflexivity. Qed.
+
+(* the accounting before the repair (GOAWAY'd clients skipped by the close handler, decremented by the next NewStream):
+   GOAWAY then close on an idle pool leaves the gauge at 1 with nothing open *)
+Theorem c10_pool_h2_old_idle_leak_refuted : ~ h2_idle_zero_statement h2sw_old.
+Proof. exact h2_old_idle_zero_refuted. Qed.
+Print Assumptions c10_pool_h2_old_idle_leak_refuted.
+
+(* a dial outside the pool mutex is refuted, with and without the identity test in deleteActiveClient *)
+Theorem c10_pool_h2_unlocked_dial_refuted : ~ h2race_statement false false /\ ~ h2race_statement false true.
+Proof. exact (conj h2race_unlocked_noidentity_refuted h2race_unlocked_identity_refuted). Qed.
+Print Assumptions c10_pool_h2_unlocked_dial_refuted.
+
+(* the schedule: both calls dial, the loser closes its connection, the loser's close event clears the winner - an open
+   connection that is nobody's shared client, whose GOAWAY + close (old accounting) is never decremented *)
+Theorem c10_pool_h2_unlocked_orphan : exists sched, let c := rrun false sched (race_cfg false) in
+  quiescent c = true /\ r_open (snd c) 0 = true /\ r_cur (snd c) = 0%nat /\
+  let q := h2run h2sw_old [HGoAway 0%nat; HClose 0%nat] (race_pool (snd c)) in
+  h_active q = 1 /\ nopen (h_cl q) (h_n q) = 0.
+Proof. exact h2race_unlocked_orphan. Qed.
+Print Assumptions c10_pool_h2_unlocked_orphan.
